@@ -324,6 +324,18 @@ func (c *c05) checkContents(what string, idx []int, pred int, s *attribute.Set, 
 		}
 		n++
 	}
+	// ToSlice of an iterator that has already been advanced restarts from the beginning (documented)
+	for k := 0; k <= len(sl)+1; k++ {
+		it2 := s.Iter()
+		for j := 0; j < k; j++ {
+			it2.Next()
+		}
+		got := it2.ToSlice()
+		if multiset(al, got) != multiset(al, sl) || len(got) != len(sl) {
+			r.FailHere("iterator-toslice|after Next calls|"+what, c.caseDesc(idx, pred), "Iterator.ToSlice after %d Next calls returns %d of %d attributes", k, len(got), len(sl))
+			break
+		}
+	}
 	if _, ok := s.Get(n); ok || n != len(sl) || it.Len() != len(sl) {
 		r.FailHere("iter|"+what, c.caseDesc(idx, pred), "Iter visited %d of %d (Len %d)", n, len(sl), it.Len())
 	}
@@ -425,7 +437,7 @@ func TestVerifC05(t *testing.T) {
 	for i := range al {
 		jobs = append(jobs, fmt.Sprintf("first=%02d", i))
 	}
-	jobs = append(jobs, "pairs", "long")
+	jobs = append(jobs, "pairs", "long", "encode")
 	enum.Jobs(jobs, func(job string) {
 		r := enum.Start("C05", "set")
 		defer r.Finish()
@@ -503,10 +515,57 @@ func TestVerifC05(t *testing.T) {
 					}
 				}
 			}
+		case job == "encode":
+			// default encoder: every key and STRING value over {x, =, ",", backslash} up to length 3
+			// (each special character alone, in pairs, next to ordinary ones), one and two attributes
+			r.Section(job)
+			chars := []string{"x", "=", ",", "\\"}
+			var words []string
+			words = append(words, "")
+			for L := 1; L <= 3; L++ {
+				var rec func(cur string, n int)
+				rec = func(cur string, n int) {
+					if n == L {
+						words = append(words, cur)
+						return
+					}
+					for _, ch := range chars {
+						rec(cur+ch, n+1)
+					}
+				}
+				rec("", 0)
+			}
+			esc := func(x string) string {
+				x = strings.ReplaceAll(x, "\\", "\\\\")
+				x = strings.ReplaceAll(x, "=", "\\=")
+				return strings.ReplaceAll(x, ",", "\\,")
+			}
+			r.Bound("encode_words", len(words))
+			for _, k := range words {
+				for _, v := range words {
+					if !r.Want() {
+						continue
+					}
+					r.Eval()
+					set := attribute.NewSet(attribute.String(k, v), attribute.Int("zz", 1))
+					want := esc(k) + "=" + esc(v) + ",zz=1"
+					if k > "zz" {
+						want = "zz=1," + esc(k) + "=" + esc(v)
+					}
+					if got := set.Encoded(attribute.DefaultEncoder()); got != want {
+						r.FailHere("encoding|escape characters", map[string]any{"key": k, "value": v}, "Encoded %q, reference %q", got, want)
+					}
+					r.Outcome(want)
+				}
+			}
 		case job == "long":
 			// the 10-element storage switch: n distinct keys, every duplicate position, every rotation
 			r.Section(job)
-			for _, n := range []int{9, 10, 11, 12, 33} {
+			sizes := []int{}
+			for n := 1; n <= 40; n++ { // every size around (and well past) the fixed-array storage switch
+				sizes = append(sizes, n)
+			}
+			for _, n := range sizes {
 				base := make([]attribute.KeyValue, n)
 				for i := range base {
 					base[i] = attribute.Int(fmt.Sprintf("k%02d", i), i)
@@ -516,6 +575,12 @@ func TestVerifC05(t *testing.T) {
 						for at := 0; at <= n; at += 1 {
 							if dup < 0 && at > 0 {
 								break
+							}
+							if n > 16 && at != 0 && at != n/2 && at != n {
+								continue // large sets: duplicate inserted at the front, the middle and the end only
+							}
+							if n > 16 && rot%5 != 0 {
+								continue // ... and every fifth rotation
 							}
 							if !r.Want() {
 								continue
